@@ -341,7 +341,7 @@ impl UnOpCode {
     fn apply(self, value: WireValue) -> Result<WireValue, Error> {
         let new_value = match self {
             UnOpCode::Plus => value.bits,
-            UnOpCode::Negate => !value.bits + 1,
+            UnOpCode::Negate => (!value.bits).wrapping_add(1),
             UnOpCode::Complement => !value.bits,
             UnOpCode::Not => if value.bits != 0 { 0 } else { 1 },
         };
